@@ -1,6 +1,7 @@
 package props
 
 import (
+	"net/url"
 	"bufio"
 	"encoding/json"
 	"fmt"
@@ -47,6 +48,29 @@ func nanValue() float64 { z := 0.0; return z / z }
 func infValue() float64 { z := 0.0; return 1 / z }
 
 // C13Worker: schema and initial data from the file's first line, then one request per line
+var c13initial string
+
+// a list with two keys and one with three, read through the JSON-backed browser (the reflection store cannot
+// hold compound keys: known finding map-list-compound-key)
+const c13twoYang = `module two { namespace "urn:two"; prefix t; revision 2020-01-01;
+  list two { key "a b"; leaf a { type string; } leaf b { type int32; } leaf v { type string; }
+    list three { key "x y z"; leaf x { type string; } leaf y { type string; } leaf z { type uint8; } } }
+  container c { list in { key "k1 k2"; leaf k1 { type int32; } leaf k2 { type boolean; } } }
+  identity idb; identity id1 { base idb; }
+  list w { key k; leaf k { type string; } leaf bi { type bits { bit a; bit b; } } leaf em { type empty; } anydata an;
+    leaf un { type union { type int32; type string; } } leaf en { type enumeration { enum a; enum b; } } leaf id { type identityref { base idb; } }
+    leaf de { type decimal64 { fraction-digits 2; } } leaf bo { type boolean; } leaf bn { type binary; } leaf u64 { type uint64; }
+    leaf-list ll { type int32; } leaf-list ls { type string; }
+    container c { leaf y { type int32; } list l { key x; leaf x { type string; } leaf n { type int32; } } container cc { leaf q { type string; } } }
+    choice ch { leaf c1 { type string; } container c2 { leaf z { type int32; } } }
+    action act { input { leaf i { type string; } } }
+    notification nt { leaf e { type string; } }
+  }
+}`
+const c13twoDoc = `{"w":[{"k":"full","bi":"a b","em":[null],"an":{"x":[1,2]},"un":"text","en":"b","id":"id1","de":1.25,"bo":true,"bn":"aGk=","u64":18446744073709551615,"ll":[1,2,3],"ls":["a","b"],"c":{"y":3,"l":[{"x":"1","n":1},{"x":"2"}],"cc":{"q":"s"}},"c2":{"z":1}},{"k":"bare"},{"k":"half","c":{"y":4},"c1":"v","un":7}],"two":[{"a":"p","b":1,"v":"v1","three":[{"x":"x1","y":"y1","z":1},{"x":"x1","y":"y2","z":2}]},{"a":"p","b":2},{"a":"q","b":1}],"c":{"in":[{"k1":1,"k2":true},{"k1":1,"k2":false}]}}`
+
+var c13twoMod *meta.Module
+
 func C13Worker(file string, from int) {
 	fh, err := os.Open(file)
 	if err != nil {
@@ -63,6 +87,7 @@ func C13Worker(file string, from int) {
 	}
 	hd := strings.Fields(sc.Text())
 	yangM, yangG, initial := core.Unhex(hd[0]), core.Unhex(hd[1]), core.Unhex(hd[2])
+	c13initial = initial
 	m, err := parser.LoadModule(source.Any(source.Named("m", strings.NewReader(yangM)), source.Named("g", strings.NewReader(yangG))), "m")
 	if err != nil {
 		fmt.Fprintln(w, "SCHEMA-ERR", err)
@@ -176,6 +201,64 @@ func c13do(b *node.Browser, kind, a, bb string, vals map[string]interface{}) (re
 		if err == nil {
 			_, err = nodeutil.WriteXML(sel)
 		}
+		return outcome(err)
+	case "find2":
+		sel, err := b.Root().Find(a)
+		if err != nil || sel == nil {
+			return "error"
+		}
+		sel, err = sel.Find(bb)
+		if err != nil {
+			return "error"
+		}
+		if sel == nil {
+			return "ok"
+		}
+		if meta.IsLeaf(sel.Meta()) {
+			_, err = sel.Get()
+			return outcome(err)
+		}
+		_, err = nodeutil.WriteJSON(sel)
+		return outcome(err)
+	case "jfind":
+		// the same path against a browser that reads the JSON document directly
+		n, err := nodeutil.ReadJSON(c13initial)
+		if err != nil {
+			return "error"
+		}
+		sel, err := node.NewBrowser(b.Meta, n).Root().Find(a)
+		if err != nil {
+			return "error"
+		}
+		if sel == nil {
+			return "ok"
+		}
+		if meta.IsLeaf(sel.Meta()) {
+			_, err = sel.Get()
+			return outcome(err)
+		}
+		_, err = nodeutil.WriteJSON(sel)
+		return outcome(err)
+	case "jfind2":
+		if c13twoMod == nil {
+			m, err := parser.LoadModuleFromString(nil, c13twoYang)
+			if err != nil {
+				return "PANIC:two-module-does-not-load"
+			}
+			c13twoMod = m
+		}
+		n, err := nodeutil.ReadJSON(c13twoDoc)
+		if err != nil {
+			return "error"
+		}
+		sel, err := node.NewBrowser(c13twoMod, n).Root().Find(a)
+		if err != nil {
+			return "error"
+		}
+		if sel == nil {
+			return "ok"
+		}
+		_, err = nodeutil.WriteJSON(sel)
 		return outcome(err)
 	case "setvalue":
 		sel, err := b.Root().Find(a)
@@ -472,6 +555,85 @@ func C13(c *core.Ctx) {
 				}
 			}
 			reqs = append(reqs, c13req{Kind: "find", A: base, Desc: "mutated path"})
+		}
+		// (d2) a second Find from an inner selection: '..' chains shorter and longer than the selection is deep
+		for i := 0; i < c.N(40, 300); i++ {
+			base := core.Pick(r, append(paths, leafPaths...))
+			rel := strings.Repeat("../", r.Intn(7))
+			switch r.Intn(4) {
+			case 0:
+				rel += core.Pick(r, append(paths, leafPaths...))
+			case 1:
+				rel += sc.kids[r.Intn(len(sc.kids))].Name
+			case 2:
+				rel = strings.TrimSuffix(rel, "/")
+			default:
+				rel += core.Pick(r, pathMuts)
+			}
+			reqs = append(reqs, c13req{Kind: "find2", A: base, B: rel, Desc: "Find from an inner selection"})
+		}
+		// (d3) the paths against a browser reading the JSON document itself; keys missing, too few, too many
+		for _, p := range paths {
+			reqs = append(reqs, c13req{Kind: "jfind", A: p, Desc: "valid path, JSON-backed browser"})
+			if k := strings.LastIndex(p, "="); k > 0 {
+				head, keys := p[:k], strings.Split(p[k+1:], ",")
+				reqs = append(reqs, c13req{Kind: "jfind", A: head + "=" + strings.Join(keys[:len(keys)-1], ","), Desc: "fewer key components than the list has keys, JSON-backed browser"},
+					c13req{Kind: "jfind", A: p + ",x", Desc: "more key components, JSON-backed browser"},
+					c13req{Kind: "jfind", A: head + "=", Desc: "empty key, JSON-backed browser"},
+					c13req{Kind: "find", A: head + "=" + strings.Join(keys[:len(keys)-1], ","), Desc: "fewer key components than the list has keys"})
+			}
+		}
+		for _, p := range []string{"two", "two=p,1", "two=p", "two=", "two=p,1,9", "two=,", "two=,1", "two=p,", "two=p,x", "two=p,1/three=x1,y1,1", "two=p,1/three=x1,y1",
+			"two=p,1/three=x1", "two=p,1/three=", "two=p,1/three=x1,y1,1,1", "two=p,1/three=,,", "two=p,1/three=x1,,1", "two=p,2/three=x1,y1,1", "c/in=1,true", "c/in=1", "c/in=,false",
+			"c/in=1,maybe", "c/in=x,true", "two=p,1/v", "two=p/v", "two?where=a%3D'p'", "two=p,1/three?where=z>1", "two?fc.range=!1-2", "two=q,1/three=x"} {
+			reqs = append(reqs, c13req{Kind: "jfind2", A: p, Desc: "compound keys, JSON-backed browser"})
+		}
+		for _, nm := range []string{"k", "bi", "em", "an", "un", "en", "id", "de", "bo", "bn", "u64", "ll", "ls", "c", "c/y", "c/l", "c/l/x", "c/l/n", "c/cc", "c/cc/q", "ch", "c1", "c2", "c2/z", "act", "act/i", "nt", "nt/e", "c/l/x/y", "c/y/z", "k/k"} {
+			for _, cmp := range []string{"", "=5", "='a'", "='a b'", "!=0", "<3", ">=1.5", "<='b'", "=true", "='id1'", "=18446744073709551615", "!='aGk='"} {
+				reqs = append(reqs, c13req{Kind: "jfind2", A: "w?where=" + url.QueryEscape(nm+cmp), Desc: "where on every kind of node"})
+			}
+		}
+		// (d4) where/filter expressions along schema paths: containers on the way are absent in some entries
+		var wherePaths func(kids []*gen.SNode, at string)
+		var relLeaves func(kids []*gen.SNode, prefix string, out *[]string)
+		relLeaves = func(kids []*gen.SNode, prefix string, out *[]string) {
+			fk, _ := gen.Flatten(kids, gen.EmptyBody(kids))
+			for _, s := range fk {
+				switch s.Kind {
+				case "leaf":
+					*out = append(*out, prefix+s.Name)
+				case "cont":
+					*out = append(*out, prefix+s.Name)
+					relLeaves(s.Kids, prefix+s.Name+"/", out)
+				case "list":
+					*out = append(*out, prefix+s.Name)
+				}
+			}
+		}
+		wherePaths = func(kids []*gen.SNode, at string) {
+			fk, _ := gen.Flatten(kids, gen.EmptyBody(kids))
+			for _, s := range fk {
+				switch s.Kind {
+				case "cont":
+					wherePaths(s.Kids, at+s.Name+"/")
+				case "list":
+					var rel []string
+					relLeaves(s.Kids, "", &rel)
+					for _, rp := range rel {
+						for _, cmp := range []string{"", "=5", "='x'", "!=0", "<3", ">=1.5"} {
+							reqs = append(reqs, c13req{Kind: "find", A: at + s.Name + "?where=" + url.QueryEscape(rp+cmp), Desc: "where along a schema path"})
+						}
+						reqs = append(reqs, c13req{Kind: "find", A: at + s.Name + "?where=" + url.QueryEscape(rp+"/nosuch=1"), Desc: "where below a schema path"})
+					}
+				}
+			}
+		}
+		wherePaths(sc.kids, "")
+		for _, n := range []int{10, 200, 255, 256, 257, 300, 5000} {
+			reqs = append(reqs, c13req{Kind: "find", A: core.Pick(r, paths) + "?where=" + url.QueryEscape(strings.Repeat("a/", n)+"b=1"), Desc: fmt.Sprintf("where with %d path segments", n+1)})
+		}
+		for _, x := range []string{"ab=-\u20ac", "a=-", "a=-x", "a=1é", "a='é", "a=é", "é=1", "a=1.", "a=.5", "a=--1", "a=-1-", "a= -1", "a=- 1", "a<-é"} {
+			reqs = append(reqs, c13req{Kind: "find", A: core.Pick(r, paths) + "?where=" + url.QueryEscape(strings.ReplaceAll(x, "\\u20ac", "€")), Desc: "where with a number-like literal"})
 		}
 		// (e) queries and xpath texts
 		soup := []string{"a", "b", sc.kids[0].Name, "/", "=", "!=", "<", ">", "<=", ">=", "'x'", "5", "-5", "1.5", "(", ")", " ", "and", "or", "not", "*", "..", "[", "]", "'", "\"", ":", "m:", "@", "|", "//", "1e9", "99999999999999999999", "\x00", "é"}
